@@ -3,7 +3,7 @@ from localcommon import *
 
 
 class Precedence(LocalResolve):
-    pid = 'C01'; with_stale = True
+    pid = 'C01'; with_stale = True; with_apex_ns = True
 
     def obligations(self, ex, w, res, zauth, cfg, facts, qk, qn, soa, cache_reads, ctx, maxstack):
         kind = res['kind']; rrs = res['rrs']
@@ -106,7 +106,7 @@ def harnesses(world, tier, seed):
     hs = [
         Precedence(name='local-precedence', qtypes=(1, 255) if q else (1, 5, 255, 16),
                    bounds={'names': 'a.z., b.z. (inside z. when configured), c.y.; question also x.z., x.y.', 'each name': 'nothing | A | CNAME to any of the three, stored in its zone or in the cache; optionally a stale A in the cache (a.z., c.y.) and a shadowed A for a.z. in the root zone',
-                           'zones': 'z. authoritative or absent; non-authoritative root zone', 'qtype': 'A, ANY' + ('' if q else ', CNAME, TXT')},
+                           'zones': 'z. authoritative (with or without NS records at its apex) or absent; non-authoritative root zone', 'qtype': 'A, ANY' + ('' if q else ', CNAME, TXT')},
                    assumptions=('cache entries are unexpired (virtual clock fixed)', 'no delegation points inside z. in this universe (delegations: C02)',
                                 'recursive / forwarding modes: only the shared local stage (resolve_local) is executed; the upstream exchange is async and outside this check'),
                    expected_classes=('Done:Authoritative', 'Done:NonAuthoritative', 'Done:AuthoritativeNameError', 'Partial', 'CNAME', 'Err:DeadEnd')),
